@@ -57,7 +57,7 @@ def run(op, a):
     if op == 1:
         ssig, spk, f, mode = a[0], a[1], a[2], a[3]
         tx = make_tx(mode)
-        idx = [0, 1, 5][(mode >> 1) % 3]
+        idx = ([0, 2, 5] if mode >= 6 else [0, 1, 5])[(mode >> 1) % 3]      # mode >= 6: 3 inputs, 2 outputs: index 2 has no matching output
         s1, s2 = CScript(ssig), CScript(spk)
         before = snapshot(tx, s1, s2)
         es = []
